@@ -653,6 +653,28 @@ func pipeShutdown(l *pipeLog, st startState, kind string, rep int) error {
 			{"HasPendingEvent", func() { s.HasPendingEvent() }},
 			{"ShowCursor", func() { s.ShowCursor(1, 1) }},
 			{"Colors", func() { s.Colors() }},
+			{"HideCursor", func() { s.HideCursor() }},
+			{"SetCursorStyle", func() { s.SetCursorStyle(tcell.CursorStyleBlinkingBar, tcell.ColorRed) }},
+			{"DisableMouse", func() { s.DisableMouse() }},
+			{"EnablePaste", func() { s.EnablePaste() }},
+			{"DisablePaste", func() { s.DisablePaste() }},
+			{"EnableFocus", func() { s.EnableFocus() }},
+			{"DisableFocus", func() { s.DisableFocus() }},
+			{"SetClipboard", func() { s.SetClipboard([]byte("x")) }},
+			{"GetClipboard", func() { s.GetClipboard() }},
+			{"SetSize", func() { s.SetSize(30, 7) }},
+			{"SetStyle", func() { s.SetStyle(tcell.StyleDefault.Bold(true)) }},
+			{"Fill", func() { s.Fill('.', tcell.StyleDefault) }},
+			{"GetContent", func() { s.GetContent(0, 0) }},
+			{"LockRegion", func() { s.LockRegion(0, 0, 2, 2, true) }},
+			{"CanDisplay", func() { s.CanDisplay('x', true) }},
+			{"RegisterRuneFallback", func() { s.RegisterRuneFallback(0x2192, ">") }},
+			{"HasKey", func() { s.HasKey(tcell.KeyF1) }},
+			{"HasMouse", func() { s.HasMouse() }},
+			{"CharacterSet", func() { s.CharacterSet() }},
+			{"Suspend", func() { s.Suspend() }},
+			{"Resume", func() { s.Resume() }},
+			{"Fini3", func() { s.Fini() }},
 		} {
 			c := c
 			ok := step(c.name, func() {
